@@ -7,7 +7,7 @@ EXPLANATION = ("Theorem + checked side conditions: Thompson's construction and t
                "is only taken where ε is the operator's identity, fragment invariants, who-may-call/who-may-write of the graph "
                "mutators, completeness of shift_ids. Language equality for concrete pattern sets is not decided (it needs the "
                "compiled automata, i.e. running the compiler).")
-RULES = {"C02.a", "C02.b", "C02.c", "C02.d", "C02.e", "C02.f", "C02.g", "C01.g"}
+RULES = {"C02.h", "C02.a", "C02.b", "C02.c", "C02.d", "C02.e", "C02.f", "C02.g", "C01.g"}
 
 
 def check(ctx):
@@ -15,3 +15,10 @@ def check(ctx):
     dispatch.analyze(ctx, RULES)
     closure_rules.analyze(ctx, RULES)
     sharing.analyze(ctx, {"C02.f"})
+    # a class id on a transition denotes the predicate stored at that index: one predicate per registered class, in id order
+    from . import classes
+    classes.analyze(ctx, {"C08.e"})
+    from . import pC06
+    pC06.compiled_mode_rules(ctx, "C02.h")   # every configured pattern reaches the compiler, unmodified
+    from . import casts
+    casts.analyze(ctx, {"C17.a"})   # ids of states, groups and classes are injective
